@@ -1,7 +1,677 @@
-fn main() {
-    let n = shuttle::Runner::new(shuttle::scheduler::RandomScheduler::new_from_seed(1, 10), shuttle::Config::new()).run(|| {
-        let h = shuttle::thread::spawn(|| {});
-        h.join().unwrap();
+//! c17 - part 2 of property C17: thread interleavings of a shared PtpInstance.
+//!
+//!   c17 check C17 <quick|thorough>     exit 0 held / 1 violation / 2 harness error
+//!   c17 replay <schedule file>         exit 1 if the violation reproduces, 0 if clean
+//!   c17 script <workload seed>         print the script a workload seed expands to
+//!
+//! See README.md.
+
+#[allow(dead_code)]
+#[path = "/verif/sim/ptpsim/src/wire.rs"]
+mod wire;
+
+mod gen;
+mod lock;
+mod oracle;
+mod sched;
+mod workload;
+
+use std::collections::{BTreeMap, HashSet};
+use std::panic::{catch_unwind, AssertUnwindSafe};
+use std::path::{Path, PathBuf};
+use std::process::{Command, ExitCode, Stdio};
+use std::sync::{Arc, Mutex};
+use std::time::{Duration, Instant};
+
+use serde_json::{json, Value};
+use shuttle::scheduler::{PctScheduler, RandomScheduler, ReplayScheduler, Scheduler};
+use shuttle::{Config, FailurePersistence, MaxSteps, Runner};
+
+use oracle::ExecCtx;
+use sched::{Recording, SchedStats};
+
+const KNOWN: &str = "/verif/known_findings.json";
+
+/// Output root, /verif unless VERIF_C17_OUT is set (only the sensitivity script sets it,
+/// so that runs against mutants never touch /verif/replays and /verif/evidence).
+fn out_root() -> PathBuf {
+    PathBuf::from(std::env::var("VERIF_C17_OUT").unwrap_or_else(|_| "/verif".into()))
+}
+fn replay_dir() -> PathBuf {
+    out_root().join("replays")
+}
+fn evidence_path() -> PathBuf {
+    out_root().join("evidence").join("C17.part2.json")
+}
+const WORKERS: usize = 16;
+const MAX_STEPS: usize = 200_000;
+const STACK: usize = 1 << 20; // a Port is ~11.5 KB and moved by value; shuttle's default 60 KiB overflows
+
+fn usage() -> ExitCode {
+    eprintln!("usage: c17 check C17 <quick|thorough> | c17 replay <file> | c17 script <seed>");
+    ExitCode::from(2)
+}
+
+fn main() -> ExitCode {
+    let args: Vec<String> = std::env::args().skip(1).collect();
+    let a: Vec<&str> = args.iter().map(|s| s.as_str()).collect();
+    match a.as_slice() {
+        ["check", "C17", tier @ ("quick" | "thorough")] => match check(tier) {
+            Ok(code) => code,
+            Err(e) => {
+                eprintln!("c17: harness error: {e}");
+                ExitCode::from(2)
+            }
+        },
+        ["check", other, ..] => {
+            eprintln!("c17: this binary only checks C17 (got {other})");
+            ExitCode::from(2)
+        }
+        ["replay", file] => replay(file),
+        ["script", seed] => match seed.parse::<u64>() {
+            Ok(s) => {
+                println!("{}", serde_json::to_string_pretty(&workload::Script::generate(s).describe()).unwrap());
+                ExitCode::SUCCESS
+            }
+            Err(_) => usage(),
+        },
+        ["worker", rest @ ..] => match worker(rest) {
+            Ok(()) => ExitCode::SUCCESS,
+            Err(e) => {
+                eprintln!("c17 worker: harness error: {e}");
+                ExitCode::from(2)
+            }
+        },
+        _ => usage(),
+    }
+}
+
+fn mix(a: u64, b: u64, c: u64) -> u64 {
+    let mut s = workload::SplitMix(a ^ b.wrapping_mul(0x9e37_79b9_7f4a_7c15) ^ c.wrapping_mul(0xc2b2_ae3d_27d4_eb4f));
+    s.next();
+    s.next()
+}
+
+fn base_config(persist: FailurePersistence) -> Config {
+    let mut c = Config::new();
+    c.stack_size = STACK;
+    c.failure_persistence = persist;
+    c.max_steps = MaxSteps::FailAfter(MAX_STEPS);
+    c.silence_warnings = true;
+    c
+}
+
+fn payload_text(p: &(dyn std::any::Any + Send)) -> String {
+    if let Some(s) = p.downcast_ref::<String>() {
+        s.clone()
+    } else if let Some(s) = p.downcast_ref::<&str>() {
+        s.to_string()
+    } else {
+        "<non-string panic payload>".into()
+    }
+}
+
+/// (oracle id, is_harness_error)
+fn classify(msg: &str) -> (String, bool) {
+    if msg.starts_with("C17.harness") || msg.starts_with("harness:") || msg.contains("harness:") {
+        return ("C17.harness".into(), true);
+    }
+    // nondeterminism during replay is a harness problem, never a verdict
+    for m in ["schedule ended early", "scheduled task is not runnable", "expected context switch", "expected random choice", "could not load schedule"] {
+        if msg.contains(m) {
+            return ("C17.harness".into(), true);
+        }
+    }
+    if let Some(rest) = msg.strip_prefix("C17.") {
+        let id: String = rest.chars().take_while(|c| c.is_ascii_alphanumeric() || *c == '_').collect();
+        return (format!("C17.{id}"), false);
+    }
+    if msg.contains("deadlock") {
+        return ("C17.deadlock".into(), false);
+    }
+    if msg.contains("exceeded max_steps") {
+        return ("C17.step_limit".into(), false);
+    }
+    ("C17.panic".into(), false)
+}
+
+/// the place a violation was seen at, without the observer's name: part of the class key
+fn site(msg: &str) -> String {
+    let body = msg.splitn(2, ": ").nth(1).unwrap_or(msg);
+    let s = body.split(':').next().unwrap_or("");
+    let s = s.split(" seen by ").next().unwrap_or(s);
+    let s = s.split(" emitted by ").next().unwrap_or(s);
+    let s = if s.starts_with("task ") { "" } else { s };
+    s.chars().take(60).collect()
+}
+
+fn list_dir(d: &Path) -> HashSet<PathBuf> {
+    std::fs::read_dir(d).map(|it| it.filter_map(|e| e.ok().map(|e| e.path())).collect()).unwrap_or_default()
+}
+
+// ------------------------------------------------------------------ worker process
+
+fn worker(a: &[&str]) -> Result<(), String> {
+    let [idx, kind, depth, seed, schedules, max_secs, workdir, samples, attempt0] = a else {
+        return Err("worker: bad arguments".into());
+    };
+    let idx: u64 = idx.parse().map_err(|_| "idx")?;
+    let depth: usize = depth.parse().map_err(|_| "depth")?;
+    let seed: u64 = seed.parse().map_err(|_| "seed")?;
+    let schedules: u64 = schedules.parse().map_err(|_| "schedules")?;
+    let max_secs: f64 = max_secs.parse().map_err(|_| "max_secs")?;
+    let want_samples: usize = samples.parse().map_err(|_| "samples")?;
+    let workdir = PathBuf::from(workdir);
+
+    let start = Instant::now();
+    let ctx = Arc::new(ExecCtx { st: Default::default(), want_samples });
+    let sstats = Arc::new(Mutex::new(SchedStats::default()));
+    let mut violations: Vec<Value> = Vec::new();
+    let mut harness_errors: Vec<String> = Vec::new();
+    let mut remaining = schedules;
+    // One failure per process: shuttle keeps per-thread state about what it persisted
+    // last, so after a failure the parent continues the budget in a fresh process.
+    let mut attempt: u64 = attempt0.parse().map_err(|_| "attempt")?;
+    let mut attempt_seeds = Vec::new();
+
+    while remaining > 0 && violations.is_empty() && harness_errors.is_empty() {
+        let left = max_secs - start.elapsed().as_secs_f64();
+        if left <= 0.0 {
+            break;
+        }
+        let s = mix(seed, idx, attempt);
+        attempt_seeds.push(s);
+        let inner: Box<dyn Scheduler + Send> = match *kind {
+            "random" => Box::new(RandomScheduler::new_from_seed(s, remaining as usize)),
+            "pct" => Box::new(PctScheduler::new_from_seed(s, depth, remaining as usize)),
+            _ => return Err("worker: scheduler kind".into()),
+        };
+        let rec = Recording::new(inner, sstats.clone());
+        let mut cfg = base_config(FailurePersistence::File(Some(workdir.clone())));
+        cfg.max_time = Some(Duration::from_secs_f64(left));
+        let before_files = list_dir(&workdir);
+        let before_exec = sstats.lock().unwrap().executions;
+        let c2 = ctx.clone();
+        let res = catch_unwind(AssertUnwindSafe(move || {
+            Runner::new(rec, cfg).run(move || workload::execute(c2.clone()));
+        }));
+        let done = sstats.lock().unwrap().executions - before_exec;
+        remaining = remaining.saturating_sub(done.max(1));
+        if let Err(p) = res {
+            let msg = payload_text(&*p);
+            let (oracle, harness) = classify(&msg);
+            // Shuttle persists when the panic hook runs and once more when the execution is
+            // torn down if unwinding took further scheduling steps (a guard dropped while
+            // panicking); the later file is a prefix-extension of the earlier one and is the
+            // one that replays to the end, so keep the last and drop the others.
+            let mut new: Vec<PathBuf> = list_dir(&workdir).difference(&before_files).cloned().collect();
+            new.sort();
+            while new.len() > 1 {
+                let _ = std::fs::remove_file(new.remove(0));
+            }
+            let (script, order) = {
+                let st = ctx.st.lock().unwrap();
+                match &st.current {
+                    Some((s, mon)) => {
+                        let m = mon.st.lock().map(|m| workload::order_text(&m.order)).unwrap_or_default();
+                        (s.describe(), m)
+                    }
+                    None => (Value::Null, String::new()),
+                }
+            };
+            if harness {
+                harness_errors.push(msg.clone());
+            }
+            if new.len() != 1 {
+                harness_errors.push(format!("expected exactly one persisted schedule after a failure, found {new:?} (failure: {msg})"));
+            } else if !harness {
+                let text = std::fs::read(&new[0]).map_err(|e| e.to_string())?;
+                let mut h = oracle::FNV_INIT;
+                oracle::fnv1a(&mut h, &text);
+                let short = oracle.trim_start_matches("C17.");
+                let dest = replay_dir().join(format!("C17-{short}-{seed}-w{idx}a{attempt}-{:08x}.txt", h as u32));
+                std::fs::rename(&new[0], &dest).map_err(|e| format!("rename {:?}: {e}", new[0]))?;
+                let total_before = schedules - remaining;
+                violations.push(json!({
+                    "oracle": oracle,
+                    "site": site(&msg),
+                    "message": msg,
+                    "replay": dest.to_string_lossy(),
+                    "schedule_bytes": text.len(),
+                    "worker": idx,
+                    "scheduler": kind,
+                    "pct_depth": if *kind == "pct" { json!(depth) } else { Value::Null },
+                    "scheduler_seed": s,
+                    "schedules_of_this_worker_until_detection": total_before,
+                    "script": script,
+                    "threads": Value::Null,
+                    "observed_lock_order_until_failure": order,
+                }));
+            }
+        }
+        attempt += 1;
+    }
+
+    let st = ctx.st.lock().unwrap();
+    let ss = sstats.lock().unwrap();
+    let out = json!({
+        "idx": idx,
+        "scheduler": {"kind": kind, "pct_depth": if *kind == "pct" { json!(depth) } else { Value::Null }, "seeds": attempt_seeds},
+        "planned": schedules,
+        "remaining": remaining,
+        "schedules": ss.executions,
+        "completed": st.executions_completed,
+        "steps": ss.steps,
+        "choice_points": ss.choice_points,
+        "context_switches": ss.context_switches,
+        "max_runnable": ss.max_runnable,
+        "max_steps_in_one": ss.max_steps_in_one,
+        "fingerprints": ss.fingerprints.iter().collect::<Vec<_>>(),
+        "pool_fingerprints": ss.pool_fingerprints.iter().collect::<Vec<_>>(),
+        "pool_executions": ss.pool_executions,
+        "slave_announce_updates": st.slave_announce_updates,
+        "executions_with_slave_update": st.executions_with_slave_update,
+        "lock_orders": st.lock_orders.iter().collect::<Vec<_>>(),
+        "scripts": st.scripts.iter().collect::<Vec<_>>(),
+        "snapshots": st.snapshots,
+        "frames_decoded": st.frames_decoded,
+        "host_calls": st.host_calls,
+        "bmca_runs": st.bmca_runs,
+        "lock_reads": st.lock_reads,
+        "lock_writes": st.lock_writes,
+        "max_depth": st.max_depth,
+        "rounds_with_slave": st.rounds_with_slave,
+        "rounds_with_master": st.rounds_with_master,
+        "samples": st.samples,
+        "violations": violations,
+        "harness_errors": harness_errors,
+        "wall_s": start.elapsed().as_secs_f64(),
     });
-    println!("{n}");
+    std::fs::write(workdir.join("result.json"), serde_json::to_vec(&out).unwrap()).map_err(|e| e.to_string())?;
+    Ok(())
+}
+
+// ------------------------------------------------------------------ replay
+
+fn replay(file: &str) -> ExitCode {
+    let mut path = PathBuf::from(file);
+    if path.extension().map(|e| e == "json").unwrap_or(false) {
+        // sidecar: points at the schedule
+        match std::fs::read(&path).ok().and_then(|b| serde_json::from_slice::<Value>(&b).ok()) {
+            Some(v) => match v["replay"].as_str() {
+                Some(p) => path = PathBuf::from(p),
+                None => {
+                    eprintln!("c17 replay: {file} has no \"replay\" entry");
+                    return ExitCode::from(2);
+                }
+            },
+            None => {
+                eprintln!("c17 replay: cannot read {file}");
+                return ExitCode::from(2);
+            }
+        }
+    }
+    // shuttle::replay_from_file(f, path) is exactly this with Config::default(); the
+    // default 60 KiB task stack overflows for this workload, so the same two steps are
+    // done here with the stack size raised.
+    let scheduler = match ReplayScheduler::new_from_file(&path) {
+        Ok(s) => s,
+        Err(e) => {
+            eprintln!("c17 replay: cannot load {}: {e}", path.display());
+            return ExitCode::from(2);
+        }
+    };
+    let ctx = Arc::new(ExecCtx { st: Default::default(), want_samples: 1 });
+    let c2 = ctx.clone();
+    let res = catch_unwind(AssertUnwindSafe(move || {
+        Runner::new(scheduler, base_config(FailurePersistence::None)).run(move || workload::execute(c2.clone()));
+    }));
+    let st = ctx.st.lock().unwrap();
+    match res {
+        Ok(()) => {
+            println!("replay of {} ran to completion without a violation", path.display());
+            if let Some(s) = st.samples.first() {
+                println!("script: {s}");
+            }
+            ExitCode::SUCCESS
+        }
+        Err(p) => {
+            let msg = payload_text(&*p);
+            let (oracle, harness) = classify(&msg);
+            if let Some((s, mon)) = &st.current {
+                println!("script: {}", s.describe());
+                println!("threads: {}", oracle::thread_names(s));
+                if let Ok(m) = mon.st.lock() {
+                    println!("lock order until failure: {}", workload::order_text(&m.order));
+                }
+            }
+            if harness {
+                println!("HARNESS-ERROR during replay: {msg}");
+                return ExitCode::from(2);
+            }
+            println!("REPRODUCED oracle={oracle} message={msg}");
+            println!("VIOLATION property=C17 replay={}", path.display());
+            ExitCode::from(1)
+        }
+    }
+}
+
+// ------------------------------------------------------------------ check (parent)
+
+struct Known {
+    oracle: String,
+    key_contains: Vec<String>,
+    status: String,
+    what: String,
+}
+
+fn load_known() -> Result<Vec<Known>, String> {
+    let Ok(bytes) = std::fs::read(KNOWN) else { return Ok(vec![]) };
+    let v: Value = serde_json::from_slice(&bytes).map_err(|e| format!("{KNOWN}: {e}"))?;
+    let list = v.as_array().cloned().or_else(|| v["findings"].as_array().cloned()).ok_or(format!("{KNOWN}: not a list"))?;
+    let mut out = Vec::new();
+    for e in list {
+        if e["property"].as_str() != Some("C17") {
+            continue;
+        }
+        let oracle = e["oracle"].as_str().or(e["signature"]["oracle"].as_str()).unwrap_or("").to_string();
+        let mut key: Vec<String> =
+            e["key_contains"].as_array().map(|a| a.iter().filter_map(|x| x.as_str().map(String::from)).collect()).unwrap_or_default();
+        if let Some(m) = e["signature"]["message"].as_str() {
+            key.push(m.to_string());
+        }
+        out.push(Known {
+            oracle,
+            key_contains: key,
+            status: e["status"].as_str().unwrap_or("").to_string(),
+            what: e["what"].as_str().unwrap_or("").to_string(),
+        });
+    }
+    Ok(out)
+}
+
+fn check(tier: &str) -> Result<ExitCode, String> {
+    let start = Instant::now();
+    let seed: u64 = match std::env::var("VERIF_SEED") {
+        Ok(s) => s.trim().parse().map_err(|_| format!("VERIF_SEED={s} is not a u64"))?,
+        Err(_) => 1,
+    };
+    let (mut total, max_secs): (u64, f64) = if tier == "quick" { (2_000, 50.0) } else { (200_000, 540.0) };
+    if let Ok(s) = std::env::var("VERIF_C17_SCHEDULES") {
+        total = s.trim().parse().map_err(|_| "VERIF_C17_SCHEDULES")?;
+    }
+    let known = load_known()?;
+    std::fs::create_dir_all(replay_dir()).map_err(|e| format!("{}: {e}", replay_dir().display()))?;
+    std::fs::create_dir_all(evidence_path().parent().unwrap()).map_err(|e| e.to_string())?;
+    let exe = std::env::current_exe().map_err(|e| e.to_string())?;
+    let pid = std::process::id();
+
+    // 16 worker processes (one shuttle Runner each; a process per worker keeps the
+    // persisted schedule files apart and contains a crash). Always 16, so that what is
+    // explored depends on the seed only, not on the machine.
+    let mut slots = Vec::new();
+    for i in 0..WORKERS {
+        let n = total / WORKERS as u64 + ((i as u64) < total % WORKERS as u64) as u64;
+        let (kind, depth) = if i % 2 == 0 { ("random", 0) } else { ("pct", 2 + (i / 2) % 4) };
+        let exe = exe.clone();
+        slots.push(std::thread::spawn(move || -> (Vec<Value>, Vec<String>) {
+            let mut results = Vec::new();
+            let mut harness = Vec::new();
+            let mut remaining = n;
+            let mut attempt = 0u64;
+            let t0 = Instant::now();
+            // after a violation the rest of the budget continues in a fresh process
+            // (at most 3 violations per slot)
+            while remaining > 0 && attempt < 3 && harness.is_empty() {
+                let left = max_secs - t0.elapsed().as_secs_f64();
+                if left <= 0.0 {
+                    break;
+                }
+                let workdir = replay_dir().join(format!(".c17-work-{pid}-{i}-{attempt}"));
+                let _ = std::fs::remove_dir_all(&workdir);
+                let run = (|| -> Result<Value, String> {
+                    std::fs::create_dir_all(&workdir).map_err(|e| e.to_string())?;
+                    let errlog = std::fs::File::create(workdir.join("stderr.log")).map_err(|e| e.to_string())?;
+                    let status = Command::new(&exe)
+                        .args(["worker", &i.to_string(), kind, &depth.to_string(), &seed.to_string(), &remaining.to_string(), &left.to_string()])
+                        .arg(&workdir)
+                        .arg(if i < 4 && attempt == 0 { "1" } else { "0" })
+                        .arg(attempt.to_string())
+                        .env_remove("SHUTTLE_RANDOM_SEED")
+                        .stdin(Stdio::null())
+                        .stdout(Stdio::null())
+                        .stderr(errlog)
+                        .status()
+                        .map_err(|e| format!("spawn worker: {e}"))?;
+                    let res = std::fs::read(workdir.join("result.json")).ok().and_then(|b| serde_json::from_slice::<Value>(&b).ok());
+                    match (status.success(), res) {
+                        (true, Some(v)) => Ok(v),
+                        _ => {
+                            let log = std::fs::read_to_string(workdir.join("stderr.log")).unwrap_or_default();
+                            let tail: Vec<&str> = log.lines().rev().take(15).collect();
+                            Err(format!(
+                                "worker {i} (attempt {attempt}) ended with {status} and no usable result; stderr tail: {}",
+                                tail.into_iter().rev().collect::<Vec<_>>().join(" | ")
+                            ))
+                        }
+                    }
+                })();
+                let _ = std::fs::remove_dir_all(&workdir);
+                match run {
+                    Ok(v) => {
+                        let failed = v["violations"].as_array().map(|a| !a.is_empty()).unwrap_or(false);
+                        remaining = if failed { v["remaining"].as_u64().unwrap_or(0) } else { 0 };
+                        results.push(v);
+                    }
+                    Err(e) => harness.push(e),
+                }
+                attempt += 1;
+            }
+            (results, harness)
+        }));
+    }
+
+    let mut harness: Vec<String> = Vec::new();
+    let mut results: Vec<Value> = Vec::new();
+    for t in slots {
+        match t.join() {
+            Ok((r, h)) => {
+                results.extend(r);
+                harness.extend(h);
+            }
+            Err(_) => harness.push("a supervisor thread panicked".into()),
+        }
+    }
+
+    // ---- merge
+    let mut fingerprints: HashSet<u64> = HashSet::new();
+    let mut lock_orders: HashSet<u64> = HashSet::new();
+    let mut scripts: HashSet<u64> = HashSet::new();
+    let mut pool_fps: HashSet<u64> = HashSet::new();
+    let mut snapshots: BTreeMap<String, u64> = BTreeMap::new();
+    let mut sum: BTreeMap<&str, u64> = BTreeMap::new();
+    let mut maxes: BTreeMap<&str, u64> = BTreeMap::new();
+    let mut samples = Vec::new();
+    let mut per_worker = Vec::new();
+    let mut all_violations: Vec<Value> = Vec::new();
+    let (mut n_random, mut n_pct) = (0u64, 0u64);
+    for r in &results {
+        for (set, key) in [(&mut fingerprints, "fingerprints"), (&mut lock_orders, "lock_orders"), (&mut scripts, "scripts"), (&mut pool_fps, "pool_fingerprints")] {
+            for x in r[key].as_array().into_iter().flatten() {
+                set.insert(x.as_u64().unwrap_or(0));
+            }
+        }
+        for (k, v) in r["snapshots"].as_object().into_iter().flatten() {
+            *snapshots.entry(k.clone()).or_insert(0) += v.as_u64().unwrap_or(0);
+        }
+        for k in [
+            "schedules", "completed", "steps", "choice_points", "context_switches", "frames_decoded", "host_calls", "bmca_runs", "lock_reads",
+            "lock_writes", "rounds_with_slave", "rounds_with_master", "pool_executions", "slave_announce_updates", "executions_with_slave_update",
+        ] {
+            *sum.entry(k).or_insert(0) += r[k].as_u64().unwrap_or(0);
+        }
+        for k in ["max_depth", "max_runnable", "max_steps_in_one"] {
+            let e = maxes.entry(k).or_insert(0);
+            *e = (*e).max(r[k].as_u64().unwrap_or(0));
+        }
+        if r["scheduler"]["kind"] == "random" {
+            n_random += r["schedules"].as_u64().unwrap_or(0);
+        } else {
+            n_pct += r["schedules"].as_u64().unwrap_or(0);
+        }
+        samples.extend(r["samples"].as_array().cloned().unwrap_or_default());
+        per_worker.push(json!({"worker": r["idx"], "scheduler": r["scheduler"], "schedules": r["schedules"], "wall_s": r["wall_s"]}));
+        all_violations.extend(r["violations"].as_array().cloned().unwrap_or_default());
+        for h in r["harness_errors"].as_array().into_iter().flatten() {
+            harness.push(format!("worker {}: {}", r["idx"], h.as_str().unwrap_or("?")));
+        }
+    }
+
+    // ---- violation classes: keep the shortest schedule of each
+    let mut classes: BTreeMap<String, Value> = BTreeMap::new();
+    let mut class_counts: BTreeMap<String, u64> = BTreeMap::new();
+    for v in all_violations {
+        let key = format!("{} {}", v["oracle"].as_str().unwrap_or(""), v["site"].as_str().unwrap_or("")).trim().to_string();
+        *class_counts.entry(key.clone()).or_insert(0) += 1;
+        let better = match classes.get(&key) {
+            None => true,
+            Some(old) => v["schedule_bytes"].as_u64() < old["schedule_bytes"].as_u64(),
+        };
+        let drop_file = if better { classes.insert(key, v).map(|o| o["replay"].clone()) } else { Some(v["replay"].clone()) };
+        if let Some(Value::String(f)) = drop_file {
+            let _ = std::fs::remove_file(f);
+        }
+    }
+
+    let mut unlisted = 0u64;
+    let mut known_matched = Vec::new();
+    let mut reported = Vec::new();
+    for (key, v) in classes.iter_mut() {
+        let oracle = v["oracle"].as_str().unwrap_or("").to_string();
+        let msg = v["message"].as_str().unwrap_or("").to_string();
+        let file = v["replay"].as_str().unwrap_or("").to_string();
+        v["found_by_workers"] = json!(class_counts[key]);
+        if let Some(s) = v["script"].as_object() {
+            if let (Some(p), true) = (s.get("ports").and_then(|p| p.as_u64()), true) {
+                let mut names = serde_json::Map::new();
+                names.insert("0".into(), "root(add_port)".into());
+                for i in 1..=p {
+                    names.insert(i.to_string(), format!("port{i}").into());
+                }
+                names.insert((p + 1).to_string(), "observer".into());
+                names.insert((p + 2).to_string(), "setter".into());
+                names.insert((p + 3).to_string(), "coordinator(bmca)".into());
+                v["threads"] = names.into();
+            }
+        }
+        let hit = known.iter().find(|k| k.oracle == oracle && k.status == "open" && k.key_contains.iter().all(|s| msg.contains(s.as_str())));
+        // the replay must reproduce in a fresh process before anything is reported
+        let rep = Command::new(&exe).args(["replay", &file]).stdin(Stdio::null()).output().map_err(|e| e.to_string())?;
+        let reproduced = rep.status.code() == Some(1) && String::from_utf8_lossy(&rep.stdout).contains(&format!("REPRODUCED oracle={oracle} "));
+        v["replay_reproduced_in_fresh_process"] = json!(reproduced);
+        // sidecar with the written-out workload, next to the schedule
+        let side = format!("{file}.json");
+        let _ = std::fs::write(&side, serde_json::to_vec_pretty(&v).unwrap());
+        if !reproduced {
+            harness.push(format!("{key}: persisted schedule {file} did not reproduce ({:?}): {}", rep.status.code(), String::from_utf8_lossy(&rep.stdout).lines().last().unwrap_or("")));
+        }
+        match hit {
+            Some(k) => {
+                println!("KNOWN-FINDING: property=C17 {oracle} {}", k.what);
+                known_matched.push(json!({"oracle": oracle, "what": k.what, "replay": file}));
+            }
+            None => {
+                println!("VIOLATION property=C17 replay={file}");
+                eprintln!("c17: {msg}");
+                unlisted += 1;
+            }
+        }
+        reported.push(v.clone());
+    }
+
+    let wall = start.elapsed().as_secs_f64();
+    let schedules = sum.get("schedules").copied().unwrap_or(0);
+    let snapshots_checked: u64 = snapshots.values().sum();
+    let evidence = json!({
+        "property": "C17",
+        "part": 2,
+        "tier": tier,
+        "seed": seed,
+        "schedules": schedules,
+        "schedules_planned": total,
+        "schedules_completed": sum.get("completed"),
+        "distinct_schedules": fingerprints.len(),
+        "distinct_schedules_how": "hash of (workload script seed, sequence of task ids chosen by the scheduler at every step)",
+        "distinct_lock_orders": lock_orders.len(),
+        "distinct_lock_orders_how": "hash of workload seed plus the observed (thread, read|write) order in which the instance-state lock was obtained",
+        "distinct_workload_scripts": scripts.len(),
+        "fixed_script_pool": {
+            "what": "half of the executions draw one of a fixed pool of scripts, so that one script meets many schedules; the rest draw a fresh script",
+            "scripts": workload::POOL,
+            "schedules": sum.get("pool_executions"),
+            "distinct_schedules": pool_fps.len(),
+        },
+        "probes": {
+            "slave_port_adopted_parent_announce (with_mut in handle_announce)": sum.get("slave_announce_updates"),
+            "schedules_with_such_an_update": sum.get("executions_with_slave_update"),
+            "bmca_rounds_with_a_slave_port": sum.get("rounds_with_slave"),
+            "bmca_rounds_with_a_master_port": sum.get("rounds_with_master"),
+        },
+        "steps": sum.get("steps"),
+        "choice_points": sum.get("choice_points"),
+        "context_switches": sum.get("context_switches"),
+        "max_runnable_threads": maxes.get("max_runnable"),
+        "max_steps_in_one_schedule": maxes.get("max_steps_in_one"),
+        "snapshots_checked": snapshots_checked,
+        "snapshots_by_kind": snapshots,
+        "frames_decoded": sum.get("frames_decoded"),
+        "host_calls": sum.get("host_calls"),
+        "bmca_runs": sum.get("bmca_runs"),
+        "lock_reads": sum.get("lock_reads"),
+        "lock_writes": sum.get("lock_writes"),
+        "max_depth": maxes.get("max_depth"),
+        "scheduler": {
+            "engine": "shuttle 0.9.3",
+            "workers": WORKERS,
+            "random": {"workers": WORKERS / 2, "schedules": n_random},
+            "pct": {"workers": WORKERS / 2, "depths": [2, 3, 4, 5], "schedules": n_pct},
+            "stack_size": STACK,
+            "max_steps": MAX_STEPS,
+            "per_worker": per_worker,
+        },
+        "oracles": ["C17.deadlock", "C17.panic", "C17.step_limit", "C17.nested_acquisition", "C17.torn_snapshot", "C17.generation_regressed"],
+        "components": {
+            "real": ["statime::PtpInstance", "statime::port::Port (all handle_* used by the scripts, start_bmca/end_bmca)", "statime BMCA", "statime::filters::BasicFilter"],
+            "stub": ["lock: shuttle::sync::RwLock behind PtpInstanceStateMutex (DetectLock)", "Clock", "RngCore", "network: scripted Announce frames from the reference codec", "timers: fired by script", "tokio tasks/channels of statime-linux main.rs: shuttle threads + mpsc"],
+        },
+        "not_modelled": "writer preference / fairness of std::sync::RwLock (shuttle's RwLock is unfair); the nested-read deadlock is therefore caught by the depth monitor, not by a hang",
+        "samples": samples,
+        "violations": unlisted,
+        "violation_classes": reported,
+        "known_findings_matched": known_matched,
+        "harness_errors": harness,
+        "wall_s": wall,
+        "schedules_per_second": if wall > 0.0 { schedules as f64 / wall } else { 0.0 },
+    });
+    std::fs::write(evidence_path(), serde_json::to_vec_pretty(&evidence).unwrap()).map_err(|e| format!("{}: {e}", evidence_path().display()))?;
+
+    eprintln!(
+        "c17: {tier}: {schedules} schedules ({} distinct, {} distinct lock orders), {} steps, {snapshots_checked} snapshots checked, max depth {}, {unlisted} violation class(es), {:.1}s",
+        fingerprints.len(),
+        lock_orders.len(),
+        sum.get("steps").copied().unwrap_or(0),
+        maxes.get("max_depth").copied().unwrap_or(0),
+        wall
+    );
+    if !harness.is_empty() {
+        for h in &harness {
+            eprintln!("c17: harness error: {h}");
+        }
+        return Ok(ExitCode::from(2));
+    }
+    if schedules < total && unlisted == 0 && known_matched.is_empty() {
+        eprintln!("c17: harness error: only {schedules} of {total} schedules ran within the time cap");
+        return Ok(ExitCode::from(2));
+    }
+    Ok(if unlisted > 0 { ExitCode::from(1) } else { ExitCode::SUCCESS })
 }
